@@ -41,6 +41,10 @@ SNIPPETS = [
     "import helper\n\nhv = helper.util\n",
     "from generated.schema import *\n\ngt = table\n",
     "from generated import schema\n\ngs = schema.COLS\n",
+    # a module that is half-typed (unparsable) at first in some runs, and its importers
+    "hx = 1\n\n\ndef hfun():\n    return hx\n",
+    "from half import hx, hfun\n\nhy = hx\nhz = hfun()\n",
+    "import half\n\nhw = half.hx\n",
     # a library outside the project, found through python_path (present in some runs)
     "import extlib\n\ne1 = extlib.ext_fn(2)\n",
     "from extlib import ExtThing, ext_fn\n\net = ExtThing()\n",
@@ -1007,6 +1011,10 @@ class CoherenceEngine(Engine):
         for e in init:
             e["nl"] = "lf"
         have = {e["p"] for e in init}
+        if swarm.get("ignore_syntax_errors") and rng.random() < 0.7:
+            # a module that cannot be parsed yet, imported by another one; it is completed later
+            init.append({"p": "half.py", "text": "hx = 1\n\n\ndef hfun(:\n", "nl": "lf", "enc": "utf-8"})
+            init.append({"p": "uses_half.py", "text": "import half\nfrom half import hx, hfun\n\nhy = hx\nhz = hfun()\nhw = half.hx\n", "nl": "lf", "enc": "utf-8"})
         if rng.random() < 0.3 and "pkg" in have:
             # modules whose dotted names merely start with a package's name
             if rng.random() < 0.7 and "pkg_tools.py" not in have:
